@@ -1,6 +1,57 @@
-(* C05 - number <-> bits codecs: property theorems only. *)
-From Xeh Require Import Model.Prelude Model.Bits Model.Codec Proofs.BitsBasic.
+(* C05 - number <-> bits codecs are exact inverses and independent of alignment.
+   Property theorems only. *)
+From Xeh Require Import Model.Prelude Model.Bits Model.Codec Proofs.BitsBasic Proofs.CodecProofs.
 
-Theorem C05_abs_length : forall c, length (abs c) = clen c.
-Proof. exact abs_length. Qed.
-Check C05_abs_length : forall c, length (abs c) = clen c.
+(* the decoded number is a function of the bit sequence alone *)
+Theorem C05_to_uint_spec : forall o c, wf c -> clen c <= 128 -> to_uint o c = spec_uint o (abs c).
+Proof. exact to_uint_spec. Qed.
+Check C05_to_uint_spec : forall o c, wf c -> clen c <= 128 -> to_uint o c = spec_uint o (abs c).
+
+Theorem C05_to_int_spec : forall o c, wf c -> clen c <= 128 -> to_int o c = spec_int o (abs c).
+Proof. exact to_int_spec. Qed.
+Check C05_to_int_spec : forall o c, wf c -> clen c <= 128 -> to_int o c = spec_int o (abs c).
+
+Theorem C05_alignment_independent : forall o c d, wf c -> wf d -> clen c <= 128 -> abs c = abs d ->
+  to_uint o c = to_uint o d /\ to_int o c = to_int o d.
+Proof. exact alignment_independent. Qed.
+Check C05_alignment_independent : forall o c d, wf c -> wf d -> clen c <= 128 -> abs c = abs d ->
+  to_uint o c = to_uint o d /\ to_int o c = to_int o d.
+
+Theorem C05_from_int_wf : forall v w o, wf (from_int v w o) /\ clen (from_int v w o) = w.
+Proof. exact from_int_wf. Qed.
+Check C05_from_int_wf : forall v w o, wf (from_int v w o) /\ clen (from_int v w o) = w.
+
+(* packing then unpacking: any representation d of the packed bits (any offset in
+   any larger buffer) decodes to the value reduced to the width *)
+Theorem C05_roundtrip_unsigned : forall o v w d, 1 <= w <= 128 -> wf d ->
+  abs d = abs (from_int v w o) -> to_uint o d = (v mod 2 ^ Z.of_nat w)%Z.
+Proof. exact roundtrip_unsigned. Qed.
+Check C05_roundtrip_unsigned : forall o v w d, 1 <= w <= 128 -> wf d ->
+  abs d = abs (from_int v w o) -> to_uint o d = (v mod 2 ^ Z.of_nat w)%Z.
+
+Theorem C05_roundtrip_signed : forall o v w d, 1 <= w <= 128 -> wf d ->
+  abs d = abs (from_int v w o) -> to_int o d = sext w (v mod 2 ^ Z.of_nat w)%Z.
+Proof. exact roundtrip_signed. Qed.
+Check C05_roundtrip_signed : forall o v w d, 1 <= w <= 128 -> wf d ->
+  abs d = abs (from_int v w o) -> to_int o d = sext w (v mod 2 ^ Z.of_nat w)%Z.
+
+(* byte-multiple widths are the standard byte layouts *)
+Theorem C05_layout : forall o v k, k <= 16 ->
+  to_bytes (from_int v (8 * k) o) =
+  Some (match o with Big => be_layout k v | Little => le_layout k v end).
+Proof. exact layout_spec. Qed.
+Check C05_layout : forall o v k, k <= 16 ->
+  to_bytes (from_int v (8 * k) o) =
+  Some (match o with Big => be_layout k v | Little => le_layout k v end).
+
+(* float patterns (k = 4 or 8 bytes) round-trip bit-exactly at any offset *)
+Theorem C05_float_roundtrip : forall k o pat d, (0 <= pat < 2 ^ Z.of_nat (8 * k))%Z -> wf d ->
+  abs d = abs (from_fbits k o pat) -> to_fbits k o d = pat.
+Proof. exact float_roundtrip. Qed.
+Check C05_float_roundtrip : forall k o pat d, (0 <= pat < 2 ^ Z.of_nat (8 * k))%Z -> wf d ->
+  abs d = abs (from_fbits k o pat) -> to_fbits k o d = pat.
+
+Example C05_nonvacuous :
+  let d := mkcbs 4 20 [18; 52; 86]%N in
+  wf d /\ abs d = abs (from_int 0x4523 16 Little) /\ to_uint Little d = 0x4523%Z.
+Proof. cbv zeta. split; [repeat split; try (cbn; lia); repeat constructor | split; reflexivity]. Qed.
